@@ -89,6 +89,14 @@ class RecObserver(Observer):
             hook(self, notification_type, data)
 
 
+class _Listener:
+    def __init__(self, run, kind, j):
+        self.run, self.kind, self.j = run, kind, j
+
+    def on_notification(self, api):
+        self.run.notified(self.kind, self.j, api)
+
+
 class Run:
     """One scheduler instance under a scripted EE.
 
@@ -99,13 +107,16 @@ class Run:
     """
 
     def __init__(self, program, ids="test", draw=False, sched_uuid="", answers=None, imm=None,
-                 mutate=False, as_file=None):
+                 mutate=False, as_file=None, imm_other=None):
         self.calls = []  # one record per external API call
         self.cur = None  # event list of the call in progress
         self.answers = []
         self.answer_fn = answers
         self.imm = imm or (lambda k: False)
+        # cross re-entrancy: from inside the k-th announcement report the oldest *other* outstanding service
+        self.imm_other = imm_other or (lambda k: False)
         self.mutate = mutate
+        self.in_progress = set()  # announcement indices whose completion is being delivered right now
         self.announced = []  # service ids in announcement order
         self.pending = []  # indices into announced, not completed yet
         self.fns = {}  # (kind, j) -> function object
@@ -148,32 +159,35 @@ class Run:
         return val_py(v, name) if v is not None else None
 
     def listener(self, kind, j):
+        """listeners are bound methods: every call returns a new, equal method object (as applications register them)"""
         key = (kind, j)
-        if key in self.fns:
-            return self.fns[key]
+        if key not in self.fns:
+            self.fns[key] = _Listener(self, kind, j)
+        return self.fns[key].on_notification
 
-        def fn(api, _kind=kind, _j=j):
-            if _kind[0] == "t":
-                name = api.task.name
-                line = api.task_call.context.start.line if api.task_call else api.task.context.start.line
-            else:
-                name = api.service.name
-                line = api.service.context.start.line
-            ctx = api.task_context.uuid if api.task_context else None
-            self.ev(["INV", _kind, _j, name, line, api.uuid, ctx, [canon_param(p) for p in api.input_parameters]])
-            if _j == 0 and _kind == "ss":
-                k = len(self.announced)
-                self.announced.append(api.uuid)
-                self.pending.append(k)
-                if self.mutate:
-                    self.hostile(api)
-                if self.imm(k):
-                    self.complete(k, nested=True)
-            elif _j == 0 and self.mutate:
+    def notified(self, _kind, _j, api):
+        if _kind[0] == "t":
+            name = api.task.name
+            line = api.task_call.context.start.line if api.task_call else api.task.context.start.line
+        else:
+            name = api.service.name
+            line = api.service.context.start.line
+        ctx = api.task_context.uuid if api.task_context else None
+        self.ev(["INV", _kind, _j, name, line, api.uuid, ctx, [canon_param(p) for p in api.input_parameters]])
+        if _j == 0 and _kind == "ss":
+            k = len(self.announced)
+            self.announced.append(api.uuid)
+            self.pending.append(k)
+            if self.mutate:
                 self.hostile(api)
-
-        self.fns[key] = fn
-        return fn
+            if self.imm_other(k):
+                others = [j for j in self.pending if j != k and j not in self.in_progress]
+                if others:
+                    self.complete(others[0], nested=True)
+            if self.imm(k):
+                self.complete(k, nested=True)
+        elif _j == 0 and self.mutate:
+            self.hostile(api)
 
     def hostile(self, api):
         ps = api.input_parameters
@@ -252,17 +266,21 @@ class Run:
         """report the k-th announced service as finished"""
         uid = self.announced[k]
         ev = Event("service_finished", {"service_uuid": uid})
-        if nested:
-            self.ev(["FIRE", uid])
-            r = self.s.fire_event(ev)
-            self.ev(["RET", uid, r])
-            if r and k in self.pending:
+        self.in_progress.add(k)
+        try:
+            if nested:
+                self.ev(["FIRE", uid])
+                r = self.s.fire_event(ev)
+                self.ev(["RET", uid, r])
+                if r and k in self.pending:
+                    self.pending.remove(k)
+                return r
+            rec = self._call({"op": "finish", "n": k}, lambda: self.s.fire_event(ev))
+            if rec["ret"] and k in self.pending:
                 self.pending.remove(k)
-            return r
-        rec = self._call({"op": "finish", "n": k}, lambda: self.s.fire_event(ev))
-        if rec["ret"] and k in self.pending:
-            self.pending.remove(k)
-        return rec
+            return rec
+        finally:
+            self.in_progress.discard(k)
 
     def fire_raw(self, op, event):
         return self._call(op, lambda: self.s.fire_event(event))
